@@ -110,6 +110,10 @@ func (e *Exec) callStatic(f *frame, in ssa.Instruction, fn *ssa.Function, args [
 		// pure spec function with a body: always inlined
 		return e.inline(f, in, fn, args, bindings, rt, h, g)
 	}
+	if sp := e.eng.specForFn(fn); sp != nil && sp.Inline == "always" && len(fn.Blocks) > 0 && len(e.inlineStk) < 8 {
+		// the contract asks for the body to be used at call sites (loops get the default invariant)
+		return e.inline(f, in, fn, args, bindings, rt, h, g)
+	}
 	if sp := e.eng.specForFn(fn); sp != nil && sp.Inline != "always" && !sp.Ghost {
 		k1, _ := calleeKeyOf(fn)
 		if sp.Trusted {
@@ -331,7 +335,9 @@ func (e *Exec) havocPointee(h *Heap, a Val, depth int) {
 				}
 			}
 		}
-		h.m[comp] = store(e.hget(h, comp), base, e.s.freshConst("hv", e.s.arrSort(e.s.sortOf(t.Elem()))))
+		if !e.pointeesOnly {
+			h.m[comp] = store(e.hget(h, comp), base, e.s.freshConst("hv", e.s.arrSort(e.s.sortOf(t.Elem()))))
+		}
 	case *types.Map:
 		dc, vc := e.mapComps(t)
 		h.m[dc] = store(e.hget(h, dc), a.T, e.s.freshConst("hv", "(Array "+e.s.sortOf(t.Key())+" Bool)"))
@@ -674,6 +680,17 @@ func (e *Exec) ghostCall(f *frame, in ssa.Instruction, fn *ssa.Function, args []
 			*e.modRec = append(*e.modRec, modTarget{addr: e.addrOf(*args[0].Dyn)})
 		}
 		return Val{Typ: rt}, h, g
+	case "same":
+		return B(eq(args[0].T, args[1].T))
+	case "hasKey":
+		mt := args[0].Typ.Underlying().(*types.Map)
+		dc, _ := e.mapComps(mt)
+		return B(sel(sel(e.hget(h, dc), args[0].T), args[1].T))
+	case "modPointees":
+		if e.modRec != nil && args[0].Dyn != nil {
+			*e.modRec = append(*e.modRec, modTarget{pointees: args[0].Dyn})
+		}
+		return Val{Typ: rt}, h, g
 	case "modElems":
 		if e.modRec != nil && args[0].Dyn != nil {
 			*e.modRec = append(*e.modRec, modTarget{elems: args[0].Dyn})
@@ -780,6 +797,10 @@ func (e *Exec) applyMod(h *Heap, m modTarget) {
 		st := m.elems.Typ.Underlying().(*types.Slice)
 		comp := e.elemComp(st.Elem())
 		h.m[comp] = store(e.hget(h, comp), "(sl_base "+m.elems.T+")", e.s.freshConst("mod", e.s.arrSort(e.s.sortOf(st.Elem()))))
+	case m.pointees != nil:
+		e.pointeesOnly = true
+		e.havocPointee(h, *m.pointees, 0)
+		e.pointeesOnly = false
 	case m.mp != nil:
 		mt := m.mp.Typ.Underlying().(*types.Map)
 		dc, vc := e.mapComps(mt)
